@@ -157,13 +157,14 @@ class FnWorld:
             lines.append(f"    return ('ret', {mid})")
         else:
             args = [a for a in (src_of(s) for s in body[1]) if a is not None]
-            call = {"callNext": "call_next", "recurse": "recurse", "next": "F.next"}[body[0]]
+            # "selfname": the method names an overloaded function (global N<k>) instead of writing recurse
+            call = f"N{body[2]}" if body[0] == "selfname" else {"callNext": "call_next", "recurse": "recurse", "next": "F.next"}[body[0]]
             lines.append("    DOWN()")
             lines.append("    try:")
             inner = f"{call}({', '.join(args)})"
             # the same delegation written inside a nested code object now and then (lambda, generator expression):
             # the rewrite has to reach into nested code, and so has everything that shares rewritten code
-            style = (mid * 7 + len(args) + len(self.sc["defs"])) % 4 if body[0] == "recurse" else 0
+            style = (mid * 7 + len(args) + len(self.sc["defs"])) % 4 if body[0] in ("recurse", "selfname") else 0
             if style == 1:
                 inner = f"(lambda: {inner})()"
             elif style == 2:
